@@ -600,7 +600,11 @@ func c14Arg(x *c14Ctx, class string) string {
 	case "addrbad": // right length, broken checksum / alphabet
 		s := types.EncodeAddress(w.accts["rich"].addr)
 		i := 1 + rng.Intn(len(s)-1)
-		return c14JS(s[:i] + x.pick("1", "z", "0", "O") + s[i+1:])
+		r := x.pick("1", "z", "0", "O")
+		if r == s[i:i+1] {
+			r = "2"
+		}
+		return c14JS(s[:i] + r + s[i+1:])
 	case "addrver": // valid base58check, wrong version byte or wrong length
 		return c14JS(x.pick(types.EncodePrivKey(w.accts["rich"].addr[:32]), c14B58Check(0x42, w.accts["rich"].addr[:20]),
 			c14B58Check(0x42, append(append([]byte{}, w.accts["rich"].addr...), 1)), c14B58Check(0x41, w.accts["rich"].addr)))
@@ -664,7 +668,7 @@ func c14Arg(x *c14Ctx, class string) string {
 	case "vRPCro":
 		return x.pick(`"cm8=:R"`, `"cm8y:"`, `"cm8z:r"`)
 	case "vRPCbad":
-		return x.pick(`"no colon!"`, `"a:b:c"`, `"@@@:RW"`, `":"`, `"::"`)
+		return x.pick(`"no colon!"`, `"a:b:c"`, `"@@@:RW"`, `"::"`)
 	case "bslash":
 		return x.pick(`"a\\b"`, `"\\"`, `"{\"peerid\":\"\\\\\"}"`)
 	// ---- changeCluster request objects
@@ -1080,6 +1084,9 @@ func c14Run(w *c14World, mp *MemPool, root []byte, bestNo uint64, wire []byte, c
 		}
 	}
 	var rp, rv c14ExecResult
+	if o.votes && !tx.HasVerifedAccount() {
+		both = false // a vote reaches neither the VM nor the name service: the two modes run the same code
+	}
 	if both {
 		if p := timed(func() { rp = w.execute(root, bestNo+1, tx, contract.BlockFactory, false) }); p != nil {
 			restore("panic")
@@ -1551,7 +1558,7 @@ func c14Worker(t *testing.T, in *c14Input, shard int) *c14Partial {
 				if o.slow > slowest {
 					slowest, slowestCase = o.slow, c.key()
 				}
-				if o.slow > 60*time.Second {
+				if o.slow > 300*time.Second { // a single layer call: normally micro- to milliseconds
 					finds.add(map[string]interface{}{"kind": "slow", "layer": o.layer, "op": c.Op}, c.Op, c14Rank(c, v), c14Replay(w, c, v, b, &o, nil),
 						fmt.Sprintf("layer %s took %v for %s", o.layer, o.slow, c.key()))
 				}
@@ -1595,9 +1602,7 @@ func c14Worker(t *testing.T, in *c14Input, shard int) *c14Partial {
 							fmt.Sprintf("after the admitted transaction was executed and its block connected, %s panics at %s (%s): %s\n world %s, sender %s, payload %s\n stack: %s",
 								where, p.site, p.where, p.val, w.spec.Name, c.S, b.descr, strings.Join(p.frames, " <- ")))
 					} else {
-						if o.votes {
-							w.resetGlobals(o.newRoot)
-						}
+						// (the readers left the caches of contract/system loaded from the new state)
 						c14Chain.set(w, o.newRoot)
 						mp2 := newPool(o.newRoot, c14BestNo+1)
 						for pi := range in.Probes {
